@@ -690,7 +690,9 @@ def get_options(args=None, defaults=None):
     options.prefix.sort(key=lambda p: len(p[0]), reverse=True)
 
     if options.all:
-        options.at_level = sys.maxsize
+        # A level <= 0 means "no limit" (see --at-level); any positive
+        # number, however large, would still exclude some integer level.
+        options.at_level = 0
 
     if options.unit and options.non_unit:
         # The test runner interprets this as "run only those tests that are
